@@ -56,7 +56,7 @@ def est_case(rng, e, sizes=None):
             'sizes': [rng.randint(0, 400)] if sizes is None else sizes}
 
 
-KNOWN_FLAG_OFF = 'experiment description with qutrit_calibration_points=False'
+# witness of finding F15 (fixed): flag off, estimate vs kernel cycle length; stays in the corpus as a regression case
 FLAG_OFF_WITNESS = {'k': 'est', 'rounds': [1], 'h': False, 'c': False, 'reps': 2, 'data': [0], 'anc': [10], 'sizes': []}
 
 
@@ -94,28 +94,8 @@ def corpus():
     r = random.Random(12)
     exps = [exp_case(r, [0, 3, 6, 2], True, 2, 'anc', c=True), exp_case(r, [0], False, 1, 'anc', c=False),
             exp_case(r, [1, 0], True, 3, 'both', c=False), exp_case(r, [5], False, 1, 'data', c=True)]
-    # the witness of known finding F15 (known_findings.json) is replayed first on every run
+    # the witness of finding F15 (known_findings.json, fixed) is replayed first on every run
     return [dict(FLAG_OFF_WITNESS)] + exps + [est_case(r, exps[0]), est_case(r, exps[3])]
-
-
-def est_expected(L, size):
-    """Python mirror of the single clause estimate_ok of C12/Run.v: n on n x L, AssertionError elsewhere"""
-    if L >= 1 and size % L == 0:
-        return {'v': size // L}
-    return {'error': 'AssertionError'}
-
-
-def known_class(c, o):
-    """F15: with qutrit_calibration_points=False the estimate leaves the calibration kernel out while kernel_cycle_length keeps it.
-    Only an est case (whose spec_ok is the estimate-vs-kernel-cycle-length clause and nothing else) with c = False is excused, and
-    only when (a) the mirror of that clause really fails and (b) every answer is the exact inversion with respect to the
-    repetition-kernel length L_rep (the known behaviour).  Anything else of a c = False description stays a VIOLATION."""
-    if c.get('k') != 'est' or c.get('c') is not False or 'error' in o:
-        return None
-    pairs = list(zip(o['sizes'], o['ests']))
-    clause_fails = any(e != est_expected(o['L'], s) for s, e in pairs)
-    known_behaviour = o['L'] > o['L_rep'] >= 1 and all(e == est_expected(o['L_rep'], s) for s, e in pairs)
-    return KNOWN_FLAG_OFF if clause_fails and known_behaviour else None
 
 
 def lz(l):
@@ -144,8 +124,8 @@ def to_coq(c, o):
         return f"(CErr {head} {cz(c['size'])} {init} {outcome(o['est'])})"
     ks = clist([f"(MkKobs {cz(k['n'])} {cz(k['start'])} {cz(k['stop'])} {cz(k['len'])} {lz(k['her'])} {lz(k['stab'])} {lz(k['fin'])} {lz(k['contains'])})"
                 for k in o['ks']])
-    cal = o['cal']
-    calt = f"(MkCobs {cz(cal['start'])} {cz(cal['stop'])} {cz(cal['len'])} {mat(cal['her'])} {mat(cal['st'])} {lz(cal['contains'])})"
+    calt = clist([f"(MkCobs {cz(cal['start'])} {cz(cal['stop'])} {cz(cal['len'])} {mat(cal['her'])} {mat(cal['st'])} {lz(cal['contains'])})"
+                  for cal in o['cal']])
     qs = clist([f"(MkQobs {cz(x['n'])} {mat(x['her'])} {mat(x['sp'])} {mat(x['proj'])})" for x in o['qs']])
     return (f"(CExp {head} {cz(c['q'])} {cz(o['start'])} {cz(o['stop'])} {cz(o['L'])} {cz(o['klen'])} {cz(o['xreps'])} {ks} {calt} {qs} "
             f"{mat(o['cal_her'])} {mat(o['cal_proj'])})")
@@ -170,17 +150,16 @@ def sample(c, o):
 
 
 LEVEL_TEXT = ('Machine-checked theorems (Coq) over kernel definitions regenerated from the Python source on every run, for ALL non-empty rounds lists, both '
-              'heralded / calibration flags, all identifier lists and repetition counts: kernels back to back from 0 with the calibration kernel last and none '
-              'empty; every index category inside its kernel; all categories of a qubit strictly increasing hence pairwise disjoint (within a cycle and over '
-              'all repetitions); an ancilla covers every block with >= 1 round and the calibration block exactly, and a 0-round block except exactly its final '
-              'slot; every getter returns translates by the cycle length; the estimate returns n exactly on n x (its own) cycle length and raises its assertion '
-              'elsewhere, and with calibration points on that cycle length is the kernel cycle length (exact integer division, no float assumption since the F9 fix). '
-              'With the flag off the estimate does not invert repetitions x kernel_cycle_length: proved as C12_estimate_vs_kernel_cycle_flag_off_refuted and '
-              'reported as known finding F15. Correspondence: every public getter compared with the model and judged by the in-Coq specification on exhaustive '
-              'small rounds lists; the estimate clause is judged strictly against the kernel cycle length, incl. repetition counts above 2^53.')
+              'heralded / calibration flags, all identifier lists and repetition counts: kernels back to back from 0, the calibration kernel last and present '
+              'exactly when the experiment has calibration points, none empty; every index category inside its kernel; all categories of a qubit strictly '
+              'increasing hence pairwise disjoint (within a cycle and over all repetitions); an ancilla covers every block with >= 1 round and the calibration '
+              'block exactly, and a 0-round block except exactly its final slot; every getter returns translates by the cycle length (calibration getters '
+              'nothing when the flag is off); the estimate returns n exactly on n x kernel_cycle_length of the experiment kernel built from the same '
+              'description and raises its assertion elsewhere, for both flag values (exact integer division). Correspondence: every public getter compared '
+              'with the model and judged by the in-Coq specification on exhaustive small rounds lists, incl. repetition counts above 2^53.')
 LEVEL_NOTE = ('Trusted: Coq kernel, the ast translator (cross-checked by comparing every getter with the running code), the hand-written fold of the '
-              'kernel-building loop (its shape is pinned by the generator). Recorded quirks (theorems C12_*_refuted / C12_experiment_stop_index_exclusive): the '
-              'experiment kernel ignores qutrit_calibration_points while the estimate honours it (F15: est cases with the flag off fail spec_ok and are excused '
-              'only when every answer is the exact inversion w.r.t. the repetition-kernel length); repeated round counts hide all but the first kernel; the '
-              'experiment kernel stop_index is exclusive (not part of the property). No axioms (Print Assumptions: closed).')
+              'kernel-building loop (its shape is pinned by the generator). The theorems are about the code after the fixes of F9 (integer division) and F15 '
+              '(qutrit_calibration_points honoured: generated constant experiment_kernel_honours_calibration_flag, theorem C12_calibration_flag_honoured); on a '
+              'tree without them the proofs stop checking and the flag-off cases fail spec_ok. Recorded quirks: repeated round counts hide all but the first '
+              'kernel (C12_rounds_distinct_needed_refuted); the experiment kernel stop_index is exclusive (not part of the property). No axioms.')
 TECHNIQUE = 'Coq proof (induction over the rounds list + lia) over translator-generated definitions + exhaustive correspondence evaluated by vm_compute'
